@@ -777,7 +777,13 @@ func minimiseAndWrite(pl *pool, prop string, job Job, plan *core.Plan, v *core.V
 		if os.Getenv("SIM_NO_MINIMISE") != "" {
 			budget = 1
 		}
-		best = core.Minimise(best, v, func(p *core.Plan) bool { return run(p) != nil }, budget)
+		minDeadline := time.Now().Add(40 * time.Second)
+		best = core.Minimise(best, v, func(p *core.Plan) bool {
+			if time.Now().After(minDeadline) {
+				return false
+			}
+			return run(p) != nil
+		}, budget)
 	}
 	res, h := runPlanJob(pl, Job{ID: 0, Prop: prop, Tier: job.Tier, Seed: job.Seed, Plan: best, Mode: mode})
 	if h != "" {
